@@ -30,6 +30,14 @@ class SessionModel(object):
             plan = self.scn.get('config', {}).get('connect_plan') or []
             what = plan[i] if i < len(plan) else None
             self.connected = False
+            ec = op.get('expect_connect')
+            if ec is not None:
+                table = {'refused': ('ConnectionRefusedError',), 'timeout': ('TcpTimeoutException',), 'silent': TIMEOUT_EXCS,
+                         'noauthkeys': ('DeviceAuthError',), 'badchallenge': ('InvalidResponseError',)}
+                if ec == 'ok':
+                    self.connected = True
+                    return ('value', True)
+                return ('exc', table[ec], None)
             if what == 'refused':
                 return ('exc', ('ConnectionRefusedError',), None)
             if what == 'timeout':
